@@ -4,7 +4,7 @@
 set -e
 file="$1"; pat="$2"; shift 2
 d=$(mktemp -d /tmp/mut.XXXXXX)
-cp -r /repo/bronzebeard "$d/"
+cp -r /repo/bronzebeard /repo/examples /repo/tests /repo/docs "$d/"
 python3 - "$d/$file" "$pat" <<'PY'
 import sys
 p, pat = sys.argv[1], sys.argv[2]
